@@ -117,6 +117,8 @@ def decOp (w : List String) : String :=
       | "f16" => showRes (padHex 8) input (Dec.f16 input)
       | "f32" => showRes (padHex 8) input (Dec.f32 true input)
       | "f64" => showRes (padHex 16) input (Dec.f64 true input)
+      | "f32_nohalf" => showRes (padHex 8) input (Dec.f32 false input)
+      | "f64_nohalf" => showRes (padHex 16) input (Dec.f64 false input)
       | "char" => showRes toString input (Dec.char input)
       | "bytes" => showRes hexOrDash input (Dec.bytes input)
       | "str" => showRes hexOrDash input (Dec.str input)
